@@ -341,6 +341,25 @@ def _entrypoints(case, ctx):
     _twice(ctx, "model.pdf(ndarray)", lambda: model.pdf(X))
     _twice(ctx, "model.pdf(list)", lambda: model.pdf(X[:3].tolist()))
     _twice(ctx, "model.pdf(row)", lambda: model.pdf(X[0]))
+    # values a caller's array may hold although they are outside the support: negative and zero coordinates (the result
+    # may be 0 / nan / an exception - what is judged is that the caller's array and the model are left alone)
+    Xh = X[np.argsort(X.sum(axis=1))[:3]].copy()  # (the three smallest points: short integration ranges for the cdf)
+    Xh[0, 0] = -abs(Xh[0, 0]) - 0.5
+    Xh[1, -1] = 0.0
+    Xh[2, :] = -Xh[2, :]
+    for lbl, fn in (("model.pdf(negative/zero coordinates)", lambda: model.pdf(Xh)), ("model.cdf(negative coordinate)", lambda: model.cdf(Xh[:1])), ("model.cdf(1-D point, negative coordinate)", lambda: model.cdf(Xh[2])), ("model.cdf(int array, negative)", lambda: model.cdf(np.array([[-1] + [2] * (Xh.shape[1] - 1)])))):
+        if "cdf" in lbl and (case["n_dim"] != 2 or int(case["sub"]) % 3 != (0 if "1-D" in lbl else 1 if "int" in lbl else 2)):
+            continue  # (a joint cdf is a 2-D quadrature: one of the three forms per case)
+        try:
+            with np.errstate(all="ignore"), warnings.catch_warnings():
+                warnings.simplefilter("ignore")
+                if "cdf" in lbl:
+                    fn()  # once: the purity monitor judges the caller's array and the model on every call
+                else:
+                    _twice(ctx, lbl, fn)
+            ctx.count("c19.out-of-support-values")
+        except (ValueError, ArithmeticError) as e:
+            ctx.count(f"c19.out-of-support-rejected[{type(e).__name__}]")
     _twice(ctx, "model.draw_sample(seed)", lambda: model.draw_sample(50, random_state=5))
     _twice(ctx, "model.draw_sample(seed=0)", lambda: model.draw_sample(50, random_state=0))
     _twice(ctx, "model.draw_sample(seed=np.int64(0))", lambda: model.draw_sample(50, random_state=np.int64(0)))
